@@ -178,9 +178,7 @@ func genC07(r *Rand, tier string) []Case {
 			a := outerOver(r, t, &From{K: "table", Path: []string{"c"}}, nil, &tags)
 			a.Items = []Item{{E: Col("id")}}
 			b := &Stmt{From: &From{K: "table", Path: []string{"c"}}, Items: []Item{{E: Col("id")}}}
-			a.With = []CTE{{Name: "c", Q: inner}}
-			b.With = []CTE{{Name: "c", Q: inner}}
-			q = &Stmt{Union: true, All: true, L: a, R: b}
+			q = &Stmt{Union: true, All: true, L: a, R: b, With: []CTE{{Name: "c", Q: inner}}}
 		}
 		in := c07In{engIn: engIn{Doc: doc, Q: q, SQL: q.SQL()}, StagedQ: staged, StagedKey: stagedKey, InnerQ: inner}
 		out = append(out, Case{Input: in, Tags: tags, Nontrivial: len(t.rows) >= 2, Key: q.SQL() + fmt.Sprint(doc)})
